@@ -7,7 +7,9 @@ FAST = ["targets/audio_metrics.cpp"]
 
 def jobs(tier):
     q = tier == "quick"
-    return [Job("c04_fidelity", "flt-asan", "random", workers=W, cases=20 if q else 400, maxtime=50 if q else 800, refs=("ref-flt",), fastsources=FAST, case_timeout=300)]
+    return [Job("c04_fidelity", "flt-asan", "random", workers=W, cases=20 if q else 400, maxtime=50 if q else 800, refs=("ref-flt",), fastsources=FAST, case_timeout=300),
+            # projection clause of C04 ("projection round-trips every input channel, identity and level kept"): the high-rate round trip of the C10 matrix target
+            Job("c10_matrix", "flt-asan", "random", workers=8, cases=12 if q else 300, maxtime=60 if q else 400, refs=("ref-flt",), name="c10_matrix.flt-asan.random.c04")]
 
 
 PROP = dict(
@@ -18,7 +20,7 @@ PROP = dict(
          "(every case); distinct = class x seed x (Fs, duration, format).",
     required_labels={"any": {"c04_fidelity/delay-checked": 20, "c04_fidelity/delay-checked-exact": 8, "c04_fidelity/gain-checked": 30, "c04_fidelity/band-energy-checked": 20,
                              "c04_fidelity/channel-identity-checked": 3, "c04_fidelity/ms-identity-checked": 5, "c04_fidelity/mode:silk": 3,
-                             "c04_fidelity/mode:hybrid": 5, "c04_fidelity/mode:celt": 20}},
+                             "c04_fidelity/mode:hybrid": 5, "c10_matrix/roundtrip-order-1": 2, "c04_fidelity/mode:celt": 20}},
     assumptions=["Numeric bounds are relative to the frozen codec (pinned commit, float build) run on the same input: SNR >= min(frozen SNR, 30 dB) - 4 dB (calibration over 3188 channel measurements: worst tree-minus-frozen difference -1.8 dB below 30 dB and -4.3 dB "
                  "at 35-45 dB, where pure tones make the figure hypersensitive), per-band energy within 6 dB (observed <= 0.83 dB, one 3-4 dB outlier on a click train; click trains are exempt from the band clause), gain within 0.03 (observed max 0.006), delay minus reported lookahead within 0.3 sample; absolute class floors come from calib/C04.json.",
                  "The delay clause is evaluated only for aperiodic signals whose correlation peak is unambiguous (>= 0.6, 0.02 above the runner-up)."],
